@@ -55,7 +55,11 @@ def histories(rng, tier):
             rng.shuffle(focus)
             fill(rng, c, h, focus)
         # twins x (in place) / y (copying) start as copies of a
-        h += ['copy a r=x', 'copy a r=y']
+        # (or as results of a COPYING operator with the neutral constant: content-equal to a, but produced by the
+        #  operator — whatever such a result still shares with a must not show: seeded change C11e)
+        for tw in 'xy':
+            h.append(rng.choice(['copy a r=%s', 'copy a r=%s', 'bop a op=and const=T r=%s', 'bop a op=or const=F r=%s',
+                                 'bop a op=xor const=F r=%s']) % tw)
         if rng.random() < 0.3:
             # twins (and sometimes an operand) as read back from their own files
             for nm in rng.sample(['x', 'y'] + names[1:], rng.randint(1, 2)):
@@ -71,7 +75,8 @@ def histories(rng, tier):
                 else:
                     rhs = 'rhs=%s' % rng.choice(names[1:] + ['a'])
                 h += ['nvalid x', 'bop x op=%s %s inplace=1' % (op, rhs), 'nvalid x',
-                      'bop y op=%s %s r=t' % (op, rhs), 'state t', 'copy t r=y']
+                      'bop y op=%s %s r=t' % (op, rhs), 'state t',
+                      rng.choice(['copy t r=y', 'bop t op=or const=F r=y'])]
             h += ['state x', 'state y', 'vals x', 'vals y', 'covmask x', 'covmask y', 'valid x', 'info x', 'info y']
             for nm in names:
                 h.append('state %s' % nm)
